@@ -60,6 +60,11 @@ func (w *World) runThread(ti int, th *Thread) {
 			for k := 0; k < 1+9*b2i(w.Cfg.FreeTasks); k++ {
 				w.doNewCfg(m, op)
 			}
+		case "inspect-loop":
+			for k := 0; k < op.N; k++ {
+				w.doInspect(m, &Op{Cfg: op.Cfg, N: k})
+				time.Sleep(time.Duration(1+k%7) * time.Millisecond)
+			}
 		case "inspect":
 			simrt.Yield("op:inspect")
 			for k := 0; k < 1+29*b2i(w.Cfg.FreeTasks); k++ {
